@@ -23,6 +23,7 @@ Definition l_take_enabled := Loop.take_enabled.
 Definition l_take_enabled_orig := Loop.take_enabled_orig.
 Definition l_clean := Loop.loop_clean.
 Definition l_clean_orig := Loop.loop_clean_orig.
+Definition l_readb_take := Loop.readb_take.
 Definition l_st := Loop.st.
 Definition l_pending := Loop.pending.
 Definition l_connected := Loop.connected.
@@ -34,4 +35,4 @@ Definition k_step := KeepAlive.kstep.
 Definition k_step_v5_orig := KeepAlive.kstep_v5_orig.
 Definition k_deadline := KeepAlive.deadline.
 Definition k_poll_connect := KeepAlive.poll_connect.
-Extraction "client_model.ml" v4_init v4_step v4_step_orig v4_k29 v4_k30 v4_contract v4_drain v4_inflight v4_collision v5_init v5_step v5_step_orig v5_drain v5_inflight v5_collision l_init l_step l_step_orig l_take_enabled l_take_enabled_orig l_clean l_clean_orig l_st l_pending l_connected l_wire l_yielded v4_events k_init k_step k_step_v5_orig k_deadline k_poll_connect.
+Extraction "client_model.ml" v4_init v4_step v4_step_orig v4_k29 v4_k30 v4_contract v4_drain v4_inflight v4_collision v5_init v5_step v5_step_orig v5_drain v5_inflight v5_collision l_init l_step l_step_orig l_take_enabled l_take_enabled_orig l_clean l_clean_orig l_readb_take l_st l_pending l_connected l_wire l_yielded v4_events k_init k_step k_step_v5_orig k_deadline k_poll_connect.
